@@ -36,6 +36,14 @@ def strategy(shard):
         cfg = draw(nonneg.config(shard["family"]))
         x = draw(nonneg.sample(cfg))
         u = cfg["u"]
+        if cfg["estim"] == "optimal_comparison" and draw(st.integers(0, 5)) == 0:
+            # no two-vote overstatements assumed: the alternative sits exactly on the upper bound, so one draw of 0 sets the
+            # statistic to 0 for good, however many large draws follow
+            cfg["kw"]["rate_error_2"] = 0.0
+            k = draw(st.integers(1, 40))
+            x = ([u] * k + [0.0] + [u] * draw(st.integers(0, 58 - k)))
+            if cfg["N"] is not None:
+                x = x[: cfg["N"]]
         conv = {"mu": u * draw(st.floats(1e-3, 1 - 1e-3)), "lam": draw(st.floats(0.0, 2.0)) / u, "eta_frac": draw(st.floats(0.0, 1.0))}
         return {"cfg": cfg, "x": x, "conv": conv}
 
